@@ -599,6 +599,8 @@ func (vc *FnVC) checkBackEdge(from, header *ssa.BasicBlock, st *State) {
 func (vc *FnVC) setEdge(from, to *ssa.BasicBlock, st *State, cond string) {
 	pc := vc.define("pc", "Bool", smtAnd(st.pc, cond))
 	if vc.isBackEdge(from, to) {
+		// the edge may at the same time leave an inner loop (inner loop's exit is the outer loop's back edge)
+		vc.checkLoopExit(from, to, st, pc)
 		bs := st.clone()
 		bs.pc = pc
 		vc.checkBackEdge(from, to, bs)
